@@ -447,13 +447,13 @@ def run(ctx):
         if "exc" in o:
             ctx.violation("C04:driver-exception", "unexpected exception: " + o["exc"], rep(o["exc"]))
             continue
-        for route in ("D", "C", "G", "E", "F"):
+        for route in ("D", "C", "G", "E", "F", "M", "N"):
             if route not in o:
                 continue
             ctx.count("route_" + route)
-            lost = route == "E" and not (c["mask"] & 0x100) and bool(o["E_provides"] & 0x100)
+            lost = route in ("E", "N") and not (c["mask"] & 0x100) and bool(o[route + "_provides"] & 0x100)
             if lost:
-                e8 = o["E"][8]
+                e8 = o[route][8]
                 msg = ("ProblemWithCounters over a class with provides_eval_hess_ψ_prod()=false but no provides_eval_hess_ψ member: "
                        "TypeErasedProblem::provides_eval_hess_ψ_prod() is true and eval_hess_ψ_prod %s; expected: flag false and %s" % (
                            "called the member the problem does not provide (log %s, result %s)" % (e8["log"], e8.get("a", e8.get("exc"))),
@@ -488,6 +488,14 @@ def run(ctx):
             same["E"] += 1
         else:
             terms.append(to_coq(c, o["E"], 2)); idx.append((k, "E"))
+        # routes M / N: the class of G / E as the SECOND base of the erased type (interface members declared at a non-zero offset)
+        for route, ref in (("M", "G"), ("N", "E")):
+            if route in o:
+                if o[route] == o[ref]:
+                    same[route] = same.get(route, 0) + 1
+                else:
+                    msg = "the problem class reached as a second base class answers differently from the same class erased directly (route %s)" % ref
+                    ctx.violation("C04:%s:differs-from-%s" % (route, ref), "[route %s] %s" % (route, msg), rep(msg))
         if "F" in o:
             if o["F"] == strip4(o["D"]):
                 same["F"] += 1
